@@ -162,7 +162,7 @@ func (l gcLayoutSpec) String() string {
 
 func cfgArgs() *store.VerifCfg {
 	return &store.VerifCfg{Name: "gcargs", NumBucket: 1, TreeHeight: 3, DataFileMax: 512, SplitCap: 1024, BufIOCap: 4096,
-		BodyMax: 64 << 10, BodyInC: 4096, MaxReq: 3, NoGCDays: 2}
+		BodyMax: 255, BodyInC: 4096, MaxReq: 3, NoGCDays: 2} // body_max below the file size: a half file counts as "not full" and is a legal append destination
 }
 
 // buildLayout writes data files directly (index files are caches and get rebuilt).
